@@ -2,6 +2,7 @@ package refcodec
 
 import (
 	"encoding/binary"
+	"errors"
 	"fmt"
 )
 
@@ -137,8 +138,11 @@ func ParseRequest(netfn, cmd byte, data []byte) (Fields, error) {
 			return Fields{"type": uint64(d[0]), "entity": uint64(d[1]), "instance": uint64(d[2]), "start": uint64(d[3])}, nil
 		}
 	}
-	return nil, fmt.Errorf("no request table for NetFn %#x cmd %#x", netfn, cmd)
+	return nil, fmt.Errorf("%w for NetFn %#x cmd %#x", ErrNoTable, netfn, cmd)
 }
+
+// ErrNoTable is returned for commands this package has no request table for.
+var ErrNoTable = errors.New("no request table")
 
 func algField(p []byte, typ byte) (uint64, error) {
 	if len(p) != 8 || p[0] != typ || p[1] != 0 || p[2] != 0 || p[5] != 0 || p[6] != 0 || p[7] != 0 {
